@@ -159,8 +159,29 @@ func TestC01(t *testing.T) {
 			// a no-break space at the edge of a run is only denoted by the entity (a literal one is white space to SubRip readers)
 			c.Rend.NBSPEntity = true
 		}
+		if len(c.Doc.Cues) > 0 && rapid.IntRange(0, 24).Draw(rt, "huge") == 1 {
+			// a document above 64 KiB (the default limit of a line scanner applies to lines, not to documents)
+			base := c.Doc.Cues
+			before := len(renderSRT(c.Doc, c.Rend))
+			c.Doc.Cues = append(c.Doc.Cues, base...)
+			for k := 70000 / (len(renderSRT(c.Doc, c.Rend)) - before + 1); k > 0; k-- {
+				c.Doc.Cues = append(c.Doc.Cues, base...)
+			}
+		}
+		aligned := false
+		if len(c.Doc.Cues) > 0 && strings.Contains(c.Rend.EOL, "\r") && rapid.IntRange(0, 5).Draw(rt, "align") == 0 {
+			aligned = alignCR(rt, func() []byte { return renderSRT(c.Doc, c.Rend) }, func(n int) {
+				c.Doc.Cues[0].Lines[0][0].Text += strings.Repeat("x", n)
+			})
+		}
 		b := renderSRT(c.Doc, c.Rend)
 		nt, ls := c01Labels(c.Doc, c.Rend, len(b))
+		if aligned {
+			ls = append(ls, "cr-at-end-of-4096-byte-block")
+		}
+		if len(b) > 65536 {
+			ls = append(ls, "over-64KiB")
+		}
 		ev.Case(nt, string(b), append(ls, "read")...)
 		if nt && len(c.Doc.Cues) <= 3 {
 			ev.Sample("read", map[string]any{"document": string(b), "model": c.Doc})
